@@ -52,6 +52,8 @@ def build(cell, names, xs=None):
             k["y"] = (0.8, 0.35)[i % 2]
     z, a = (float(common.frac(v)) for v in cell.get("target", [[1, 1], [1, 1]]))
     tgt = cell.get("target_name") or dict(A=a, Z=z)      # (a dict target may list its keys in either order: A first here, Z first in C20)
+    if isinstance(tgt, dict) and cell["proc"] != "NC" and a == int(a) and z == int(z):
+        tgt = dict(A=int(a), Z=int(z))                   # (... and hold integers, as a YAML card with `Z: 26, A: 56` does)
     ob = cards.obs({n: [dict(k) for k in kins] for n in names}, xgrid=xg, deg=cell.get("deg", 3),
                    prDIS=cell["proc"], ProjectileDIS=cards.PROJ_NAME[cell["proj"]],
                    PolarizationDIS=float(common.frac(cell["pol"])),
